@@ -265,6 +265,13 @@ Fixpoint c11_nil_bad (i : nat) (s : mstate) (pending : bool) (steps : list (mop 
               | [] => c11_nil_bad (S i) s' pending rest
               | _ => if pending then Some i else c11_nil_bad (S i) s' true rest
               end
+          | MAct _ =>
+              (* a local action changes the kernel state like a message does *)
+              let nils := nil_events (skipn (List.length (st_ev (ms_k s))) (st_ev (ms_k s'))) in
+              match nils with
+              | [] => c11_nil_bad (S i) s' pending rest
+              | _ => if pending then Some i else c11_nil_bad (S i) s' true rest
+              end
           | MGRead =>
               (* the implementation's read: did it carry a nil-voted round? *)
               let got := match tls (nth_tr (nth_tr ob 5) 4) with [_] => true | _ => false end in
